@@ -99,7 +99,7 @@ def generate(tier, rng):
                     hi = t["entries"][-1][-2] if t["entries"] else g["xmin"]
                     t["xmin"] = rng.randint(g["xmin"], min(lo, g["xmax"]))
                     t["xmax"] = rng.randint(max(hi, t["xmin"]), g["xmax"])
-        cases.append({"op": "rt", "g": g, "vals": vals, "fmt": fmt, "blanks": blanks,
+        cases.append({"op": "rt", "g": g, "vals": vals, "fmt": fmt, "blanks": blanks, "defthr": rng.random() < 0.5,
                       "empty": rng.random() < 0.5, "scale": ["rank", 0]})
     return cases
 
@@ -141,9 +141,21 @@ def run(case):
     def f():
         tg = iogen.build_tg(case["g"], tof)
         fmt, blanks = case["fmt"], case["blanks"]
-        tg.save(fn, fmt, blanks, minimumIntervalLength=None)
+        # with blank filling off nothing may be absorbed, whatever the threshold: use the default there
+        kw = {} if (not blanks and case.get("defthr")) else {"minimumIntervalLength": None}
+        before = _snap(tg)
+        tg.save(fn, fmt, blanks, **kw)
         with open(fn, "r", encoding="utf-8", newline="") as fh:
             text1 = fh.read()
+        early = []
+        if _snap(tg) != before:
+            early.append("save changed the textgrid it was called on")
+        # the same object saved again, with the other blank-filling setting in between, writes the same file
+        tg.save(fn2, fmt, not blanks, **({"minimumIntervalLength": None} if not blanks else {}))
+        tg.save(fn2, fmt, blanks, **kw)
+        with open(fn2, "r", encoding="utf-8", newline="") as fh:
+            if fh.read() != text1:
+                early.append("saving the same textgrid a second time wrote a different file")
         out = {"text": text1 if fmt in ("short_textgrid", "long_textgrid") else None}
         # what the text reader returns for this text (dictionary level)
         if out["text"] is not None:
@@ -154,7 +166,7 @@ def run(case):
             except Exception as e:  # noqa
                 out["parse_err"] = core.err_kind(e)
         # the property: reopen, compare, re-save
-        problems = []
+        problems = list(early)
         try:
             tg2 = tgmod.openTextgrid(fn, case["empty"])
             a, b = _snap(tg), _snap(tg2)
